@@ -99,7 +99,7 @@ CLASSES = [
     ("", "class G { G(); void run(int a = 1) const; static G Make(); };"),
     ("ns", "class A { A(); int val; enum Kind { K1, K2 }; Kind kind() const; };"),
     ("ns", "virtual class B { B(double x); void serialize() const; };"),
-    ("ns", "template<T = {double, int}> class Tm { Tm(T t); T get() const; };"),
+    ("ns", "template<T = {double, int}> class Tm { Tm(T t); T get() const; void serialize() const; };"),
     ("deep::er", "class D { D(); };"),
     ("ns", "template<T = {double}, U = {ns::Keep2}> class Pr { Pr(T t); enum Mode { M1, M2 }; U second(const This::Mode& m) const; };"),
     ("ns", "class Mid { Mid(); double length() const; };"),
